@@ -812,7 +812,14 @@ pub fn oracle_c07_watch(sc: &Scenario, s: &Session) -> Option<Violation> {
         let dep_tid = sc.all_targets().into_iter().find(|t| sc.display(t.0, &t.1) == dep);
         let blocked_by_failure = failed_disp.contains(&dep)
             || dep_tid.map(|d| model::transitive_effective_deps(sc, &d).iter().any(|x| failed_disp.contains(&sc.display(x.0, &x.1)))).unwrap_or(false);
-        if blocked_by_failure {
+        // a target behind the failure that has told its requesters it is ready and then learns it
+        // is out of date must tell them so: otherwise they are not blocked
+        let announcer = if v.oracle == "out-of-date-not-announced" { v.witness.split(' ').find_map(|t| t.strip_prefix("target=")).map(String::from) } else { None };
+        let announcer_behind_failure = announcer
+            .and_then(|a| sc.all_targets().into_iter().find(|t| sc.display(t.0, &t.1) == a))
+            .map(|a| model::transitive_effective_deps(sc, &a).iter().any(|x| failed_disp.contains(&sc.display(x.0, &x.1))))
+            .unwrap_or(false);
+        if blocked_by_failure || announcer_behind_failure {
             return viol("dependent-of-failed-not-blocked", v.witness.clone(), format!("after the failure of [{}]: {}", failed_disp.join(","), v.message));
         }
     }
@@ -1064,6 +1071,12 @@ impl Property for C16 {
                 t.output.push(Res::Paths { paths: vec![format!("src/{}/built", name)], extensions: None });
                 t.writes.push(format!("src/{}/built/gen.c", name));
             }
+            if simrt::stamp::fnv(simrt::stamp::FNV_INIT, format!("docs-{}-{}", name, files.len()).as_bytes()) % 3 == 0 {
+                // a second resource somewhere else with a filter of its own: a file carrying the
+                // extension of the OTHER resource is no input of this target
+                files.push(FileSpec { path: format!("p0/docs/{}/guide.md", name), kind: FileKind::File(format!("{} guide v0\n", name)) });
+                t.input.push(Res::Paths { paths: vec![format!("docs/{}", name)], extensions: Some(vec!["md".to_string()]) });
+            }
             if i > 0 && rng.chance(40) {
                 t.deps.push(DepRef { project: 0, target: format!("t{}", i - 1), via_dep: true, via_output: false, qualified: false });
             }
@@ -1098,7 +1111,9 @@ impl Property for C16 {
             inv.plan.events.push(PlanEvent { id: "during-failing-run".into(), kind: PlanEventKind::Fs { ops: vec![FsOp::Write { path: format!("p0/src/t{}/a.c", ti), content: "saved again while the failing run was in progress\n".into() }] }, gate: Gate::Running { id, nth: 1 } });
         }
         let nb = rng.range(2, 7);
-        let dirs: Vec<String> = sc.projects[0].targets.iter().filter(|t| t.name != "lint").map(|t| format!("p0/src/{}", t.name)).collect();
+        let mut dirs: Vec<String> = sc.projects[0].targets.iter().filter(|t| t.name != "lint").map(|t| format!("p0/src/{}", t.name)).collect();
+        let docs: Vec<String> = sc.files.iter().filter(|f| f.path.starts_with("p0/docs/") && f.path.ends_with("/guide.md")).map(|f| f.path.trim_end_matches("/guide.md").to_string()).collect();
+        dirs.extend(docs);
         let mut existing: Vec<String> = sc.files.iter().filter(|f| matches!(f.kind, FileKind::File(_)) && !f.path.contains("/.zinoma/")).map(|f| f.path.clone()).collect();
         let look_alikes: Vec<String> = existing.iter().filter(|f| f.contains(".zinoma")).cloned().collect();
         existing.extend(look_alikes.clone());
@@ -1112,7 +1127,7 @@ impl Property for C16 {
             let op = match rng.weighted(&[22, 14, 10, 12, 22, 10, 10, 8]) {
                 7 => FsOp::Touch { path: if rng.chance(70) { d.clone() } else { format!("{}/sub", d) } },
                 0 => {
-                    let name = *rng.pick(&["x~", ".a.c.swp", ".b.h.swx", "readme.txt", "core", "Makefile", "y.o"]);
+                    let name = *rng.pick(&["x~", ".a.c.swp", ".b.h.swx", "readme.txt", "core", "Makefile", "y.o", "cross.md", "cross.c", "cross.h"]);
                     let p = format!("{}/{}", sub, name);
                     created.push(p.clone());
                     FsOp::Create { path: p, content: format!("irrelevant {}\n", b) }
